@@ -69,8 +69,11 @@ def parse_emitted(prints: List[str]) -> Tuple[dict, List[dict]]:
     return header, cases
 
 
-def replay(header: dict, cases: List[dict]):
-    """Yields (case, out, verdict)."""
+def replay(header: dict, cases: List[dict], custom_coercer=None):
+    """Yields (case, out, verdict).  With `custom_coercer`, only the strict cases are replayed, with
+    that coercer passed as `coerce=`: the expectation is the strict one."""
+    if custom_coercer is not None:
+        cases = [c for c in cases if not c["opts"].get("coerce")]
     u = Universe(header, [c["type"] for c in cases])
     bad = u.check_string_table()
     if bad:
@@ -86,12 +89,26 @@ def replay(header: dict, cases: List[dict]):
         tkey = json.dumps(c["type"], sort_keys=True)
         if tkey != last:
             apischema.cache.reset()
+            clear_typing_caches()
+            u._types.clear()
             last = tkey
         tp = u.type(c["type"])
         data = bridge.dec_data(c["data"])
-        out = record.run_deserialize(u.ctx, tp, data, kwargs_of(u, c["opts"]))
+        kw = kwargs_of(u, c["opts"])
+        if custom_coercer is not None:
+            kw["coerce"] = custom_coercer
+        out = record.run_deserialize(u.ctx, tp, data, kw)
         yield c, out, compare.deser_verdict(c["expect"], out, c.get("ambig", False),
                                             dups_ok=has_union(c["type"], u.classes))
+
+
+def clear_typing_caches():
+    """typing memoises List[X] by *equality* of X, and Union[int, float] == Union[float, int]:
+    without this List[Union[float, int]] evaluated after List[Union[int, float]] IS the latter."""
+    import typing
+
+    for cleanup in getattr(typing, "_cleanups", ()):
+        cleanup()
 
 
 def has_union(T: Any, classes: dict, seen: frozenset = frozenset()) -> bool:
